@@ -357,6 +357,20 @@ func (r *Run) query(extra *Term, install bool) Res {
 			fmt.Fprintf(os.Stderr, "   conj %s\n", cj.Deep(8))
 		}
 	}
+	if res != Unknown && w.ex.cfg.XCheckEvery > 0 {
+		w.xseen++
+		// unsat answers carry the "holds" verdicts: sample them twice as often
+		every := int64(w.ex.cfg.XCheckEvery)
+		if res == Unsat {
+			every = (every + 1) / 2
+		}
+		if w.xseen%every == 0 && len(w.xsamples) < w.ex.cfg.XCheckMax {
+			sc := w.standaloneScript(append(append([]*Term(nil), conj...), extra))
+			if len(sc) < 1<<20 {
+				w.xsamples = append(w.xsamples, xsample{script: sc, res: res})
+			}
+		}
+	}
 	if s.restarted {
 		s.restarted = false
 		r.solverOpen = false
